@@ -387,6 +387,7 @@ def units(tier, seed):
     if tier != "quick":
         out.append(("atheris", {"runs": 600000, "corpus": "empty"}))
         out.append(("atheris", {"runs": 600000, "corpus": "seeded"}))
+    out.append(("faults", {"jobset": 'der', "arg": None, "examples": 40 if tier == "quick" else 1500, "triples": 400 if tier == "quick" else 20000}))
     return out
 
 
@@ -423,6 +424,10 @@ def _interleaved_jobs():
 
 
 def run_unit(ctx, name, **kw):
+    if name == "faults":
+        from . import faults
+        faults.run_set(ctx, **kw)
+        return
     if name == "interleaved":
         from .purity import interleaved_pure
         interleaved_pure(ctx, "der", [D], _interleaved_jobs(), kw["stride"], max_schedules=kw["max"])
@@ -541,6 +546,10 @@ def run_unit(ctx, name, **kw):
 
 
 def replay(ctx, case):
+    if case.get("kind") == "fault-history":
+        from . import faults
+        faults.replay(ctx, case)
+        return
     if case.get("kind") == "interleaved":
         from .purity import interleaved_pure
         interleaved_pure(ctx, "der", [D], _interleaved_jobs(), 1, max_schedules=3000)
